@@ -143,6 +143,6 @@ void harness(void) {
   if (vs.nsysfail == SYSFAIL) VWITNESS("all system call failures used");
 #endif
 #if SCRIPT == 2
-  if (X == NULL && S != NULL && vm_failed > 0 && vfd_closes[3] + vfd_closes[2] + vfd_closes[1] >= 1) VWITNESS("accept failed after the kernel handed out a descriptor");
+  if (X == NULL && S != NULL && vm_failed > 0 && vs.nclose >= 2) VWITNESS("accept failed after the kernel handed out a descriptor");
 #endif
 }
